@@ -248,7 +248,8 @@ fn heartbeat_signature(k: &Key, panic: &str) -> String {
             None
         }
     };
-    let c = class(&k.top).map(|c| format!("topic:{c}")).or_else(|| class(&k.def).map(|c| format!("default:{c}"))).unwrap_or_else(|| "valid-parameters".into());
+    let top = if k.top != k.def { class(&k.top) } else { None };
+    let c = top.map(|c| format!("topic:{c}")).or_else(|| class(&k.def).map(|c| format!("default:{c}"))).unwrap_or_else(|| "valid-parameters".into());
     let what = if panic.contains("subtract with overflow") { "subtract-overflow" } else { "other" };
     format!("heartbeat-panic:{what}:{c}")
 }
@@ -267,6 +268,56 @@ fn program_from_json(v: &Value) -> Option<Vec<(&'static str, usize)>> {
             alpha.iter().find(|a| a.0 == name && a.1 == x).copied()
         })
         .collect()
+}
+
+
+fn phase2(ctx: &Ctx, hb: &[(Key, Vec<(&'static str, usize)>)]) -> Outcome {
+    let scs = scenarios();
+    let seed = ctx.seed;
+    mc::workers(ctx, 16, |ctx| {
+        let mut out = Outcome::default();
+        for (i, (k, program)) in hb.iter().enumerate() {
+            if !ctx.mine(i as u64) {
+                continue;
+            }
+            let results = heartbeat_batch(program.clone(), scs.clone(), seed);
+            for (sc, r) in scs.iter().zip(results) {
+                out.evaluations += 1;
+                out.nontrivial(&format!("hb{:?}{:?}{:?}{sc:?}", k.def, k.top, k.hist));
+                let case = json!({"kind": "heartbeat", "program": program_json(program), "peers": sc.peers, "pattern": sc.pattern, "local_first": sc.local_first});
+                match r {
+                    Ok(sizes) => {
+                        out.count("heartbeat_runs_ok", 1);
+                        if sizes.iter().any(|s| s.0 > 0 || s.1 > 0) {
+                            out.count("heartbeat_runs_with_mesh_peers", 1);
+                        }
+                        if out.evaluations % 499 == 1 {
+                            out.sample(json!({"case": case, "mesh_sizes_after_each_heartbeat(T,U)": sizes}));
+                        }
+                    }
+                    Err(e) => match e.strip_prefix("panic :: ") {
+                        Some(p) => {
+                            out.count("heartbeat_runs_panicked", 1);
+                            let sig = heartbeat_signature(k, p);
+                            if out.violations.iter().any(|v| v.signature == sig) {
+                                continue;
+                            }
+                            // confirm as a stand-alone execution (exactly what --replay does)
+                            match heartbeat_run(program.clone(), sc.clone(), seed) {
+                                Err(e2) if e2.starts_with("panic :: ") => {
+                                    let loc = mc::shim::last_panic_loc().unwrap_or_default();
+                                    out.violation(sig, format!("heartbeat panicked ({p}) with accepted config default {:?} topic {:?} [outbound_min, n_low, n, n_high], scenario {sc:?} {loc}", k.def, k.top), case);
+                                }
+                                other => out.machinery(format!("NONDETERMINISM: heartbeat panic in batch not reproduced stand-alone ({other:?}) for {case}")),
+                            }
+                        }
+                        None => out.machinery(e),
+                    },
+                }
+            }
+        }
+        out
+    })
 }
 
 pub fn run(ctx: &Ctx) -> Outcome {
@@ -304,7 +355,26 @@ pub fn run(ctx: &Ctx) -> Outcome {
         return out;
     }
 
-    // ---- phase 1: every program (deterministic order; identical in every worker process)
+    // worker processes of phase 2 get the unit list from the parent (file named in the
+    // environment) instead of repeating phase 1
+    if ctx.worker.is_some() {
+        if let Ok(path) = std::env::var("VH_C34_UNITS") {
+            let text = std::fs::read_to_string(&path).unwrap_or_default();
+            let progs: Vec<Value> = serde_json::from_str(&text).unwrap_or_default();
+            let hb: Vec<(Key, Vec<(&'static str, usize)>)> = progs
+                .iter()
+                .filter_map(|p| {
+                    let program = program_from_json(p)?;
+                    let c = build(&program).ok()?.ok()?;
+                    Some((key(&c), program))
+                })
+                .collect();
+            let out = phase2(ctx, &hb);
+            // not reached in a worker (`workers` exits), kept for completeness
+            return out;
+        }
+    }
+    // ---- phase 1: every program (deterministic order)
     let alpha = alphabet();
     let maxlen = ctx.tier.pick(3, 4);
     let mut p1 = Outcome::default();
@@ -351,59 +421,24 @@ pub fn run(ctx: &Ctx) -> Outcome {
     // set: topic U; as per-topic set: topic T) and every distinct accepted history pair
     let mut units: BTreeMap<(u8, Vec<usize>), (Key, Vec<(&'static str, usize)>)> = BTreeMap::new();
     for (k, p) in &accepted {
-        units.entry((0, k.def.to_vec())).or_insert((k.clone(), p.clone()));
+        let mut put = |id: (u8, Vec<usize>)| {
+            let e = units.entry(id).or_insert_with(|| (k.clone(), p.clone()));
+            if p.len() < e.1.len() {
+                *e = (k.clone(), p.clone()); // prefer the shortest program
+            }
+        };
+        put((0, k.def.to_vec()));
         if k.top != k.def {
-            units.entry((1, k.top.to_vec())).or_insert((k.clone(), p.clone()));
+            put((1, k.top.to_vec()));
         }
-        units.entry((2, k.hist.to_vec())).or_insert((k.clone(), p.clone()));
+        put((2, k.hist.to_vec()));
     }
     let hb: Vec<(Key, Vec<(&'static str, usize)>)> = units.into_values().collect();
-    let scs = scenarios();
-    let seed = ctx.seed;
-    let p2 = mc::workers(ctx, 16, |ctx| {
-        let mut out = Outcome::default();
-        for (i, (k, program)) in hb.iter().enumerate() {
-            if !ctx.mine(i as u64) {
-                continue;
-            }
-            let results = heartbeat_batch(program.clone(), scs.clone(), seed);
-            for (sc, r) in scs.iter().zip(results) {
-                out.evaluations += 1;
-                out.nontrivial(&format!("hb{:?}{:?}{:?}{sc:?}", k.def, k.top, k.hist));
-                let case = json!({"kind": "heartbeat", "program": program_json(program), "peers": sc.peers, "pattern": sc.pattern, "local_first": sc.local_first});
-                match r {
-                    Ok(sizes) => {
-                        out.count("heartbeat_runs_ok", 1);
-                        if sizes.iter().any(|s| s.0 > 0 || s.1 > 0) {
-                            out.count("heartbeat_runs_with_mesh_peers", 1);
-                        }
-                        if out.evaluations % 499 == 1 {
-                            out.sample(json!({"case": case, "mesh_sizes_after_each_heartbeat(T,U)": sizes}));
-                        }
-                    }
-                    Err(e) => match e.strip_prefix("panic :: ") {
-                        Some(p) => {
-                            out.count("heartbeat_runs_panicked", 1);
-                            let sig = heartbeat_signature(k, p);
-                            if out.violations.iter().any(|v| v.signature == sig) {
-                                continue;
-                            }
-                            // confirm as a stand-alone execution (exactly what --replay does)
-                            match heartbeat_run(program.clone(), sc.clone(), seed) {
-                                Err(e2) if e2.starts_with("panic :: ") => {
-                                    let loc = mc::shim::last_panic_loc().unwrap_or_default();
-                                    out.violation(sig, format!("heartbeat panicked ({p}) with accepted config default {:?} topic {:?} [outbound_min, n_low, n, n_high], scenario {sc:?} {loc}", k.def, k.top), case);
-                                }
-                                other => out.machinery(format!("NONDETERMINISM: heartbeat panic in batch not reproduced stand-alone ({other:?}) for {case}")),
-                            }
-                        }
-                        None => out.machinery(e),
-                    },
-                }
-            }
-        }
-        out
-    });
+    let path = std::env::temp_dir().join(format!("vh-c34-units-{}.json", std::process::id()));
+    let _ = std::fs::write(&path, serde_json::to_string(&hb.iter().map(|(_, p)| program_json(p)).collect::<Vec<_>>()).unwrap());
+    std::env::set_var("VH_C34_UNITS", &path);
+    let p2 = phase2(ctx, &hb);
+    let _ = std::fs::remove_file(&path);
     // (in a worker process `workers` does not return; only the parent gets here)
     let mut out = p1;
     out.count("heartbeat_config_combinations", hb.len() as u64);
